@@ -1,4 +1,4 @@
-CONSTANTS MaxFacts = 2  MaxOps = 5  KeyKind = "canon"
+CONSTANTS MaxFacts = 2  MaxOps = 5  MemoDepth = 2  KeyKind = "canon"
 INIT Init
 NEXT Next
 CONSTRAINT Bound
